@@ -301,7 +301,7 @@ theorem alias_metadata_refund_stuck_witness :
     stepWith (refCfg 4) (runWith (refCfg 4) init ops) (.settle 0 1 .timeout) =
       (runWith (refCfg 4) init ops, .stuck [(0, 1)]) ∧
     (stepWith { refCfg 4 with aliasFirst := true } (runWith { refCfg 4 with aliasFirst := true } init ops)
-      (.settle 0 1 .timeout)).2 = .done 100 0 0 0 100 [] := by
+      (.settle 0 1 .timeout)).2 = .done 100 0 0 0 100 100 [] := by
   constructor <;> decide
 
 /-! ## 4. the relation record is removed on success, failure and timeout alike — that record and no other -/
@@ -384,7 +384,7 @@ theorem success_ack_keeps_relation_witness :
     (0, 1) ∈ (runWith (refCfg 7) init ops).ctl.rel ∧
     (stepWith (refCfg 7) (runWith (refCfg 7) init [Op.fund 5 .A 0 100, .send 0 5 .A 40]) (.settle 0 1 .ackOk)).2.isDone := by
   refine ⟨by decide, ?_⟩
-  exact ⟨60, 0, 0, 0, 60, [(0, 1)], by decide⟩
+  exact ⟨60, 0, 0, 0, 60, 60, [(0, 1)], by decide⟩
 
 /-- with the delete under prefix 4 (the repaired call) the same run leaves no record -/
 theorem success_ack_removes_relation_fixed :
@@ -416,9 +416,9 @@ guard `denom != FX` it is credited as ERC-20 and nothing stays in bank form; und
 `ibc/` prefix the acknowledgement is a success and the coin stays in bank form. -/
 theorem returning_native_coin_guard_witness :
     let ops := [Op.chan 0 7, .fund 5 .N 0 100, .csend 0 5 .N 60, .settle 0 1 .ackOk]
-    (stepWith (refCfg 4) (runWith (refCfg 4) init ops) (.recv 0 .N .hex 9 60 .none 0)).2 = .recv true 0 60 0 0 0 none ∧
+    (stepWith (refCfg 4) (runWith (refCfg 4) init ops) (.recv 0 .N .hex 9 60 .none 0)).2 = .recv true 0 60 0 0 60 0 none ∧
     (stepWith { refCfg 4 with recvGuard := .hasPrefix "ibc/" } (runWith (refCfg 4) init ops) (.recv 0 .N .hex 9 60 .none 0)).2 =
-      .recv true 60 0 0 0 0 none := by
+      .recv true 60 0 0 0 0 0 none := by
   constructor <;> decide
 
 /-- a processed settlement (or one that found nothing to process) is final: every later acknowledgement or timeout of
@@ -479,43 +479,43 @@ regenerated facts): no credit and no refund ever mints an ERC-20 token without l
 minted twice for one coin.  `supply t` is the sum of all ERC-20 balances of token `t`; `userOnly`: senders and receivers
 are not module accounts (the bank keeper blocks those). -/
 theorem erc20_supply_backed (cfg : Cfg) (ops : List Op) (hu : ∀ op ∈ ops, userOnly op) (t : ETok) :
-    supply t (runWith cfg init ops).bal = sget (runWith cfg init ops).bal.bank (erc20Mod, denomOfE t) :=
+    supply t (runWith cfg init ops).bal.erc = sget (runWith cfg init ops).bal.bank (erc20Mod, denomOfE t) :=
   (backed_run cfg ops init hu backed_init (fun _ hx => absurd hx List.not_mem_nil)).eq t
 
 -- non-vacuity: a run with credits, a refund and a success acknowledgement; supply of the aliased token's ERC-20 is 130
 example : (∀ op ∈ [Op.chan 0 1, .fund 5 .A 0 100, .fund 6 .A 0 70, .send 0 5 .A 40, .send 0 6 .A 30, .settle 0 1 .timeout,
       .settle 0 2 .ackOk, .recv 0 .V .hex 7 9 .none 0], userOnly op) ∧
     supply .base (run init [Op.chan 0 1, .fund 5 .A 0 100, .fund 6 .A 0 70, .send 0 5 .A 40, .send 0 6 .A 30,
-      .settle 0 1 .timeout, .settle 0 2 .ackOk, .recv 0 .V .hex 7 9 .none 0]).bal = 140 ∧
+      .settle 0 1 .timeout, .settle 0 2 .ackOk, .recv 0 .V .hex 7 9 .none 0]).bal.erc = 140 ∧
     supply (.v 0) (run init [Op.chan 0 1, .fund 5 .A 0 100, .fund 6 .A 0 70, .send 0 5 .A 40, .send 0 6 .A 30,
-      .settle 0 1 .timeout, .settle 0 2 .ackOk, .recv 0 .V .hex 7 9 .none 0]).bal = 9 := by
+      .settle 0 1 .timeout, .settle 0 2 .ackOk, .recv 0 .V .hex 7 9 .none 0]).bal.erc = 9 := by
   refine ⟨?_, by decide, by decide⟩
   intro op hop
   simp only [List.mem_cons, List.not_mem_nil, or_false] at hop
   rcases hop with h | h | h | h | h | h | h | h <;> subst h <;> simp [userOnly, userAddr]
 
 -- non-vacuity: `done` settlements, successful and failing receives of every class exist on reachable states
-example : (step (run init [.chan 0 1, .fund 5 .A 0 100, .send 0 5 .A 40]) (.settle 0 1 .ackErr)).2 = .done 100 0 0 0 100 [] := by
+example : (step (run init [.chan 0 1, .fund 5 .A 0 100, .send 0 5 .A 40]) (.settle 0 1 .ackErr)).2 = .done 100 0 0 0 100 100 [] := by
   decide
-example : (step (run init [.chan 0 1, .fund 5 .A 0 100, .send 0 5 .A 40]) (.settle 0 1 .timeout)).2 = .done 100 0 0 0 100 [] := by
+example : (step (run init [.chan 0 1, .fund 5 .A 0 100, .send 0 5 .A 40]) (.settle 0 1 .timeout)).2 = .done 100 0 0 0 100 100 [] := by
   decide
 example : (step (run init [.chan 0 1, .fund 5 .A 0 100, .send 0 5 .A 40]) (.settle 0 1 .ackOk)).2.isDone :=
-  ⟨60, 0, 0, 0, 60, _, rfl⟩
+  ⟨60, 0, 0, 0, 60, 60, _, rfl⟩
 example : (stepWith (refCfg 4) (runWith (refCfg 4) init [.chan 0 1]) (.recv 0 .V .hex 9 7 .callok 1)).2 =
-    .recv true 0 7 0 7 1 (some (some 1, 1)) := by decide
+    .recv true 0 7 0 7 7 1 (some (some 1, 1)) := by decide
 example : (stepWith { refCfg 4 with memoChan := .dst } (runWith (refCfg 4) init [.chan 0 1]) (.recv 0 .V .hex 9 7 .callok 1)).2 =
-    .recv true 0 7 0 7 1 (some (some 0, 1)) := by decide
+    .recv true 0 7 0 7 7 1 (some (some 0, 1)) := by decide
 example : (step (run init [.chan 0 1]) (.recv 0 .V .hex 9 7 .callok 1)).2 =
-    .recv true 0 7 0 7 1 (some (genCfg.memoChan.pick 1 0, 1)) := by decide
-example : (step (run init [.chan 0 1]) (.recv 0 .X .hex 9 7 .none 0)).2 = .recv false 0 0 0 0 0 none := by decide
-example : (stepWith (refCfg 4) (runWith (refCfg 4) init [.chan 0 1]) (.recv 0 .A .hex 9 7 .none 0)).2 = .recv false 0 0 0 0 0 none := by
+    .recv true 0 7 0 7 7 1 (some (genCfg.memoChan.pick 1 0, 1)) := by decide
+example : (step (run init [.chan 0 1]) (.recv 0 .X .hex 9 7 .none 0)).2 = .recv false 0 0 0 0 0 0 none := by decide
+example : (stepWith (refCfg 4) (runWith (refCfg 4) init [.chan 0 1]) (.recv 0 .A .hex 9 7 .none 0)).2 = .recv false 0 0 0 0 0 0 none := by
   decide
 example : (stepWith { refCfg 4 with aliasFirst := true } (runWith (refCfg 4) init [.chan 0 1]) (.recv 0 .A .hex 9 7 .none 0)).2 =
-    .recv true 0 7 0 7 0 none := by decide
+    .recv true 0 7 0 7 7 0 none := by decide
 example : (step (run init [.chan 0 7, .fund 5 .N 0 100, .csend 0 5 .N 60, .settle 0 1 .ackOk]) (.recv 0 .N .hex 9 60 .none 0)).2 =
-    .recv true 0 60 0 0 0 none := by decide
+    .recv true 0 60 0 0 60 0 none := by decide
 example : (step (run init [.chan 0 7, .fund 5 .U 0 100, .csend 0 5 .U 60, .settle 0 1 .ackOk]) (.recv 0 .U .hex 9 60 .none 0)).2 =
-    .recv false 0 0 60 0 0 none := by decide
+    .recv false 0 0 60 0 0 0 none := by decide
 example : (run init [.chan 0 1, .fund 5 .A 0 100, .send 0 5 .A 40, .settle 0 1 .ackErr]).ctl.refundLog = [⟨0, 1, 5, .A, 40, true⟩] := by
   decide
 
